@@ -14,9 +14,13 @@ U16Boundary == {0, 1, 2, 3, 4, 5, 6, 7, 8, 9, 13, 14, 17, 18, 19, 22, 23, 24, 12
 U32Boundary == { <<0, 0, 0, 0>>, <<1, 0, 0, 0>>, <<4, 0, 0, 0>>, <<7, 0, 0, 0>>, <<8, 0, 0, 0>>, <<255, 0, 0, 0>>, <<0, 1, 0, 0>>, <<255, 255, 0, 0>>,
                  <<0, 0, 1, 0>>, <<255, 255, 255, 127>>, <<0, 0, 0, 128>>, <<255, 255, 255, 255>> }
 
+\* small displacements of the honest value: lengths, counts and offsets that are off by a little
+Deltas == {-2, -1, 1, 2, 3, 4, 8, 10, 11, 12}
+
 \* all single faults of a region of n bytes; full = every value of every byte
 Descs(n, full) ==
        { [op |-> "set8", off |-> o, v |-> v] : o \in 0..(n - 1), v \in (IF full THEN 0..255 ELSE U8Boundary) }
+  \cup { [op |-> "add8", off |-> o, d |-> dl] : o \in 0..(n - 1), dl \in Deltas }
   \cup { [op |-> "set16le", off |-> o, v |-> v] : o \in 0..(n - 2), v \in U16Boundary }
   \cup { [op |-> "set16be", off |-> o, v |-> v] : o \in 0..(n - 2), v \in U16Boundary }
   \cup { [op |-> "set32le", off |-> o, b |-> v] : o \in 0..(n - 4), v \in U32Boundary }
@@ -26,6 +30,7 @@ Descs(n, full) ==
 \* the faulted region
 Apply(b, d) ==
   CASE d.op = "set8"    -> [b EXCEPT ![d.off + 1] = d.v]
+    [] d.op = "add8"    -> [b EXCEPT ![d.off + 1] = (@ + d.d + 256) % 256]
     [] d.op = "set16le" -> [b EXCEPT ![d.off + 1] = d.v % 256, ![d.off + 2] = d.v \div 256]
     [] d.op = "set16be" -> [b EXCEPT ![d.off + 1] = d.v \div 256, ![d.off + 2] = d.v % 256]
     [] d.op = "set32le" -> [b EXCEPT ![d.off + 1] = d.b[1], ![d.off + 2] = d.b[2], ![d.off + 3] = d.b[3], ![d.off + 4] = d.b[4]]
